@@ -142,6 +142,9 @@ fn case<S: Shape>(spec: &AnimSpec, st: usize, r: &mut Rng, acc: &mut Acc, stream
     let mut saw_not_ended = false;
     let mut landed_exact = false;
     for (k, op) in ops.iter().enumerate() {
+        // values are C05's subject: the model continues from the values actually observed, so that a
+        // last-bit difference earlier in the history cannot masquerade as a wrong terminal value later
+        model.values = real.current_values().clone();
         apply_real::<S>(&mut real, *op);
         model.apply(*op);
         if k < entry - 1 {
